@@ -109,7 +109,7 @@ class C03Requests(Monitor):
         self.req: Dict[str, Any] = {}
 
     def after_step(self, h: History, before, after, events):
-        mid = h.scripted[0].seen if h.scripted and h.scripted[0].seen is not None else before
+        mid = h.mid(before)
         paid = collections.Counter()
         fares = collections.Counter()
         for t, e in events:
@@ -484,7 +484,7 @@ class C07Location(Monitor):
                     yield Violation("C07", f"{n} route exhausted away from its target {where}", {"vehicle": v.id, "position": v.geoid, "target": tgt})
 
     def after_step(self, h: History, before, after, events):
-        mid = h.scripted[0].seen if h.scripted and h.scripted[0].seen is not None else before
+        mid = h.mid(before)
         for e in _events(events, "PICKUP_REQUEST_EVENT"):
             ro = mid.requests.get(e["request_id"]) or before.requests.get(e["request_id"])
             if ro is not None and e["geoid"] != ro.origin:
@@ -631,7 +631,7 @@ class C08Index(Monitor):
 class C10Membership(Monitor):
     prop = "C10"
 
-    def check_state(self, sim, where: str) -> Iterable[Violation]:
+    def check_state(self, sim, where: str, h: Optional[History] = None) -> Iterable[Violation]:
         for v in sim.vehicles.values():
             n, vs = sname(v), v.vehicle_state
             if n in ("DispatchStation", "ChargingStation", "ChargeQueueing"):
@@ -648,6 +648,8 @@ class C10Membership(Monitor):
                         yield Violation("C10", f"ChargingBase on a plug of a station that denies the vehicle {where}", {"vehicle": v.id, "vehicle_fleets": sorted(v.membership.memberships), "base": x.id, "station": s.id, "station_fleets": sorted(s.membership.memberships)})
             elif n == "DispatchTrip":
                 x = sim.requests.get(vs.request_id)
+                if x is not None and h is not None and vs.instance_id in h.reoffered.get(x.id, ()):
+                    continue  # started travelling while it had access; the request was re-offered to another fleet since
                 if x is not None and not grants(x, v):
                     yield Violation("C10", f"DispatchTrip to a request of another fleet {where}", {"vehicle": v.id, "vehicle_fleets": sorted(v.membership.memberships), "request": x.id, "request_fleets": sorted(x.membership.memberships)})
             elif n == "ServicingTrip":
@@ -655,7 +657,7 @@ class C10Membership(Monitor):
                     yield Violation("C10", f"ServicingTrip for a request of another fleet {where}", {"vehicle": v.id, "request": vs.request.id})
 
     def after_step(self, h: History, before, after, events):
-        mid = h.scripted[0].seen if h.scripted and h.scripted[0].seen is not None else before
+        mid = h.mid(before)
         for e in _events(events, "INSTRUCTION"):
             v = mid.vehicles.get(e["vehicle_id"])
             tgt = None
@@ -676,7 +678,7 @@ class C10Membership(Monitor):
         known_fleets = set(h.spec.get("fleet_ids") or [])
         if any((known_fleets and not r.membership.memberships) or (r.membership.memberships and not known_fleets) for r in after.requests.values()):
             h.flag("misfit_request_admitted")
-        yield from self.check_state(after, "after step")
+        yield from self.check_state(after, "after step", h)
         # (b) pairings produced by the built-in generators (every instruction they emitted, whether or not a
         # later generator overrode it) and by the vehicles' own drivers (winning instructions nobody scripted)
         scripted = {(type(i).__name__, i.vehicle_id) for g in h.scripted for i in g.emitted}
@@ -700,7 +702,7 @@ class C10Membership(Monitor):
                         yield Violation("C10", f"{who} paired a vehicle with a {what} of a fleet it does not belong to{nofleet}", {"instruction": type(i).__name__ if not isinstance(i, _Rec) else i.instruction_type, "vehicle": v.id, "vehicle_fleets": sorted(v.membership.memberships), what: tid, what + "_fleets": sorted(tgt.membership.memberships)})
 
     def after_probe(self, h, before, after, instruction, vid):
-        return self.check_state(after, "after single instruction")
+        return self.check_state(after, "after single instruction", h)
 
 
 class _Rec:
@@ -749,6 +751,10 @@ class C17Assignment(Monitor):
                     if r.dispatched_vehicle is not None:
                         yield Violation("C17", "built-in dispatcher sent a vehicle to a request that already records one", {"request": r.id, "recorded": r.dispatched_vehicle, "sent": i.vehicle_id, "recorded_at": int(r.dispatched_vehicle_time) if r.dispatched_vehicle_time is not None else None})
         pure_builtin = h.builtin and h.stats["instructions_queued"] == 0
+        if pure_builtin and h.step_no >= 5:
+            h.flag("five_steps_under_builtin_generators_alone")
+            if len(h.spec.get("fleet_ids") or []) >= 2:
+                h.flag("five_steps_under_builtin_generators_alone_with_fleets")
         disp = collections.defaultdict(list)
         for v in after.vehicles.values():
             if sname(v) == "DispatchTrip":
@@ -1007,7 +1013,7 @@ class C16Immutable(Monitor):
     def after_probe(self, h, before, after, instruction, vid):
         return self._check_retained(h, "after a later instruction application")
 
-    def _step_saved(self, h: History, saved, queues):
+    def _step_saved(self, h: History, saved, queues, more_steps: int = 0):
         """StepSimulation.update on a saved state with the scripted controllers' queues set to `queues`; nothing of the
         monitored history is disturbed (throw-away reporter, generator state restored)"""
         from nrel.hive.reporting.reporter import Reporter
@@ -1021,6 +1027,8 @@ class C16Immutable(Monitor):
             try:
                 with quiet():
                     r, _ = h.rp.u.step_update.update(saved, env2)
+                    for _k in range(more_steps):  # carry on from there (the scripted controllers have nothing more to say)
+                        r, _ = h.rp.u.step_update.update(r, env2)
             except Exception as exc:  # HIVE raised while stepping the saved state: bucketed like any crash of a step
                 h._crashed(exc)
                 return None
@@ -1082,10 +1090,21 @@ class C16Immutable(Monitor):
     def branch(self, h: History, k: int) -> Iterable[Violation]:
         from hv.canon import first_diff
 
+        more = (0, 0, 0, 2, 5, 9)[(k // 8) % 6]  # most branches re-step once; some carry on for 3, 6 or 10 steps
         k = k % len(h.retained)
         saved, _ = h.retained[k]
         queues, first = self.first_result[k]
         if first is None:
+            return
+        if more:
+            # the same saved state run forward several steps, twice: equal results (modulo instance ids) both times
+            runs = [self._step_saved(h, saved, queues, more) for _ in range(2)]
+            if runs[0] is not None and runs[1] is not None:
+                h.flag("branched_several_steps")
+                h.stats["multi_step_branches"] += 1
+                if runs[0] != runs[1]:
+                    yield Violation("C16", "running the same saved state forward twice gave different results", {"steps": more + 1, "first_difference": first_diff(runs[0], runs[1])})
+            yield from self._check_retained(h, "after running a saved state forward")
             return
         again = [self._step_saved(h, saved, queues)]
         self._what_if_sweep(h, saved)  # a client exploring other states between two uses of the saved one
